@@ -71,7 +71,11 @@ def gen_schema_graph(rng, inst_prop=RDF_TYPE):
     nc = rng.randint(1, 3)
     classes = [I('C%d' % i) for i in range(nc)]
     kindof = {c: rng.choice('IIB') for c in classes}
-    nodes = {c: [(I if kindof[c] == 'I' else B)('%s_%d' % (c[1][-2:], j)) for j in range(rng.randint(1, 4))] for c in classes}
+    # at most one class whose members are IRIs and blank nodes mixed; it is never the value class of a property (neighbours stay
+    # homogeneous in kind) and it is the one that receives the links from untyped nodes below
+    mixc = rng.choice(classes) if rng.random() < 0.35 else None
+    nodes = {c: [(I if (kindof[c] == 'I' if c != mixc else rng.random() < 0.5) else B)('%s_%d' % (c[1][-2:], j)) for j in range(rng.randint(1, 4) if c != mixc else rng.randint(2, 4))]
+             for c in classes}
     untyped_I = [I('u%d' % i) for i in range(3)]
     untyped_B = [B('ub%d' % i) for i in range(3)]
     triples = []
@@ -88,7 +92,9 @@ def gen_schema_graph(rng, inst_prop=RDF_TYPE):
         for j in range(rng.randint(1, 3)):
             p = EX + 'p%d_%d' % (ci, j)
             tgt = rng.choice(['lit', 'uI', 'uB'] + ['cls'] * 2)
-            tcls = rng.choice(classes)
+            tcls = rng.choice([x for x in classes if x != mixc] or classes)
+            if tgt == 'cls' and (tcls == mixc or c == mixc):
+                tgt = 'uI'          # neither into nor out of the mixed class: the neighbours of every class stay homogeneous in both directions
             mixlit = rng.random() < 0.4
             for n in nodes[c]:
                 if rng.random() < 0.25:
@@ -103,6 +109,14 @@ def gen_schema_graph(rng, inst_prop=RDF_TYPE):
                     else:
                         o = rng.choice(nodes[tcls])
                     add((n, p, o))
+    if mixc is not None or rng.random() < 0.2:
+        # links INTO the instances of one class from nodes that have no class (all subjects of that property untyped IRIs): the incoming
+        # constraints of blank-node instances depend on them as much as those of IRI instances
+        c = mixc or rng.choice(classes)
+        p = EX + 'ref%d' % rng.randint(0, 1)
+        for n in nodes[c]:
+            for _ in range(rng.choice([0, 1, 1, 2])):
+                add((rng.choice(untyped_I), p, n))
     rng.shuffle(triples)
     return triples
 
